@@ -83,6 +83,26 @@ def reset_server(srv):
             store.delete(p)
 
 
+class AppError(Exception):
+    """an application exception raised inside a `with WBEMSubscriptionManager(...)` block"""
+
+
+EXIT_EXCS = ['ValueError', 'KeyError', 'AppError', 'CIMError', 'ConnectionError', 'KeyboardInterrupt', 'SystemExit',
+             'GeneratorExit', 'StopIteration', 'AssertionError']
+
+
+def app_exception(name):
+    import pywbem
+    if name == 'AppError':
+        return AppError('application failure inside the with block')
+    if name == 'CIMError':
+        return pywbem.CIMError(pywbem.CIM_ERR_FAILED, 'raised by application code')
+    if name == 'ConnectionError':
+        return pywbem.ConnectionError('raised by application code')
+    import builtins
+    return getattr(builtins, name)('raised by application code')
+
+
 def sysname(k):
     from pywbem_mock.config import SYSTEMNAME
     return SYSTEMNAME if k == 0 else 'othersys%d' % k
@@ -209,6 +229,30 @@ class Real:
     def sid(self, s):
         return self.srv[s].url if s < self.nsrv else 'http://nosuchserver:1'
 
+    @staticmethod
+    def remove_all(mg, how):
+        """remove_all_servers() (how false) or leaving the context manager — through the real `with` statement:
+        how True / 'normal' = the block ends normally; how = name of an exception class = application code inside
+        the block raises it.  Result 'ok' = the clean-up itself raised nothing (an application exception must
+        come out of the `with` statement unchanged; that is not an error of the manager)."""
+        if not how:
+            mg.remove_all_servers()
+            return {'ok': None}
+        if how is True or how == 'normal':
+            with mg as entered:
+                if entered is not mg:
+                    return {'exc': 'EnterReturnedOtherObject'}
+            return {'ok': None}
+        app = app_exception(how)
+        try:
+            with mg:
+                raise app
+        except BaseException as e:  # noqa  (KeyboardInterrupt / SystemExit / GeneratorExit are in the pool)
+            if e is app:
+                return {'ok': None}
+            return common.exc_json(e)
+        return {'exc': 'ApplicationExceptionSwallowed'}
+
     def step(self, op):
         import pywbem
         try:
@@ -224,11 +268,7 @@ class Real:
                 self.alive[m] = False
                 return {'ok': None}
             if o == 'removeAll':
-                if op.get('exit'):
-                    mg.__exit__(None, None, None)
-                else:
-                    mg.remove_all_servers()
-                return {'ok': None}
+                return self.remove_all(mg, op.get('exit'))
             s = op['s']
             sid = self.sid(s)
             if o == 'addServer':
@@ -524,12 +564,25 @@ class Oracle:
             self.remove_server_check(m, k, before, after, res)
         if o == 'removeAll':
             regs = [r['s'] for mg in before['mgrs'] if mg['m'] == m for r in mg['regs']]
+            how = op.get('exit')
+            form = 'remove_all_servers' if not how else ('exit_normal' if how in (True, 'normal') else 'exit_exception')
             if 'ok' in res:
-                for kk in regs:
-                    self.remove_server_check(m, kk, before, after, res)
                 left = [r['s'] for mg in after['mgrs'] if mg['m'] == m for r in mg['regs']]
                 if left:
-                    self.violate({'kind': 'remove_all_left_registered'}, {'mgr': m, 'servers': left})
+                    # nothing was cleaned up for these servers: owned instances are still there
+                    self.violate({'kind': 'remove_all_left_registered', 'form': form},
+                                 {'mgr': m, 'servers': left, 'exit': how})
+                for kk in regs:
+                    if kk not in left:
+                        self.remove_server_check(m, kk, before, after, res)
+                    else:
+                        i_ = self.ids[m]
+                        fs_, ds_, ss_ = self.owned_sets(kk, after['stores'][kk], i_)
+                        for cls, owned in (('f', fs_), ('d', ds_), ('s', ss_)):
+                            for x in sorted(owned):
+                                self.violate({'kind': 'remove_all_left_owned', 'form': form, 'cls': cls,
+                                              'cause': 'not_cleaned_up'},
+                                             {'mgr': m, 'id': i_, 'server': kk, 'instance': x, 'exit': how})
             else:
                 # the failing server is the first one still registered
                 left = [r['s'] for mg in after['mgrs'] if mg['m'] == m for r in mg['regs']]
@@ -790,7 +843,7 @@ class Gen:
         nf, nd, ns = len(st['f']), len(st['d']), len(st['s'])
         w = {
             'restart': 5 + (6 if self.mode in ('kf1', 'cross') and ns else 0),
-            'removeServer': 4, 'removeAll': 3,
+            'removeServer': 4, 'removeAll': 5,
             'addDest': 16 if nd < 4 else 6,
             'addFilter': 16 if nf < 4 else 6,
             'addSubs': (26 if nf and nd else 2),
@@ -808,7 +861,10 @@ class Gen:
         if r == 'removeServer':
             return {'op': 'removeServer', 'm': m, 's': s}
         if r == 'removeAll':
-            return {'op': 'removeAll', 'm': m, 'exit': rng.random() < 0.5}
+            # remove_all_servers(), or leaving the context manager: normally / through an exception of any type
+            #  raised by application code inside the block (after whatever work has been done on 1-2 servers)
+            how = rng.choice([False, 'normal', rng.choice(EXIT_EXCS), rng.choice(EXIT_EXCS)])
+            return {'op': 'removeAll', 'm': m, 'exit': how}
         if r == 'addSubs':
             owned = rng.random() < 0.7
             if owned and self.mode not in ('kf1', 'cross') and s < self.nsrv and \
@@ -1118,6 +1174,10 @@ def do_cases(run, seeds):
         for op, st in zip(case['ops'], steps):
             r = st['res']
             run.count('op:%s:%s' % (op['op'], 'ok' if 'ok' in r else r.get('exc', '?') + str(r.get('code', ''))))
+            if op['op'] == 'removeAll':
+                how = op.get('exit')
+                run.count('cleanup:' + ('remove_all_servers' if not how else
+                                        'with_block_normal_end' if how in (True, 'normal') else 'with_block_raises_' + how))
         ids = [common.from_cps(o['id']) for o in case['ops'] if o['op'] == 'newMgr']
         if any(c in i for i in ids for c in META.strip()):
             run.count('case:manager_id_with_regex_metachar')
@@ -1190,7 +1250,8 @@ def run(run):
                 'like markers) with 1-3 live manager objects whose ids come from one confusable family (regex '
                 'metacharacters, prefixes, case variants, empty, non-ASCII), owned/permanent add_destination/add_filter/'
                 'add_subscriptions (None / one / list of destinations), removals in any order, remove_server, '
-                'remove_all_servers / __exit__, client restarts (object dropped, new manager with the same id '
+                'remove_all_servers / leaving the context manager through the real `with` statement (normal end of the block, or an '
+                'application exception of one of 10 classes incl. KeyboardInterrupt/SystemExit raised inside it), client restarts (object dropped, new manager with the same id '
                 're-registers); op arguments are drawn from the live real state. Streams: clean (60%), edge, kf1, marker, '
                 'cross (10% each). A case is non-trivial when a subscription existed at some point; distinct = distinct '
                 '(static content, op list). Second stream: (id, Name) pairs against CPython re.')
